@@ -167,6 +167,9 @@ func (p Params) headers(key, prevKey string) []hdr {
 	if p.Long == 1 {
 		long = []hdr{{"X-Padding", strings.Repeat("x", 1000)}}
 	}
+	if p.Long == 2 {
+		long = []hdr{{"X-Padding", strings.Repeat("x", 2500)}, {"X-Padding2", strings.Repeat("y", 2500)}}
+	}
 	var hs []hdr
 	hs = append(hs, pre...)
 	if p.Ord == "canon" {
@@ -255,8 +258,8 @@ func (f frame) encode() []byte {
 // frames of a scenario are pairwise different.
 func (p Params) frames(round int, seed int64) []frame {
 	f1 := []byte{byte('A' + round), 'f', '1', byte('0' + round), '!'}
-	if p.Piggy == "big" {
-		f1 = make([]byte, 1500)
+	if p.Piggy == "big" || p.Piggy == "huge" {
+		f1 = make([]byte, map[string]int{"big": 1500, "huge": 6000}[p.Piggy])
 		x := uint32(seed)*2654435761 + uint32(round)*97 + 1
 		for i := range f1 {
 			x = x*1664525 + 1013904223
@@ -291,7 +294,7 @@ func (p Params) feat() string {
 	switch {
 	case p.Kind == "badurl":
 		return "badurl"
-	case p.Long == 1:
+	case p.Long >= 1:
 		return "long"
 	case len(p.Cuts) > 0:
 		return "segmented"
